@@ -1486,8 +1486,8 @@ def neutralized(fams, before, step=None):
 
 def smallest_class(fs, holds):
   """The smallest set of classes whose replacement makes `holds` true."""
-  if not fs or not holds(fs):
-    return None
+  if not fs or holds([]) or not holds(fs):
+    return None           # (not reproduced on rebuilt contents / not by these classes)
   for f in fs:
     if holds([f]):
       return f
